@@ -14,4 +14,5 @@ Extraction "C12_model.ml" wire_anchor
   plus_spec minus_spec div_spec mod_spec eq_spec lt_spec typedefs_spec
   d_of_Z enc64 dec64 fcast_m fconv_m fcast_spec fspec_ok
   d_int_of fsrc_ok dd_cast_m di_cast_m di_floor_m di_ceil_m di_round_m dd_plus_m dd_minus_m dd_div_m dd_lt_m dd_eq_m
+  id_plus_m id_minus_m id_lt_m id_eq_m di_minus_m di_lt_m is_mul_m is_div_m ds_mul_m ds_div_m
   fits rep_ok period_ok cast_ok common_ok both_ok plus_ok minus_ok div_ok floor_ok ceil_ok round_ok abs_ok.
